@@ -354,6 +354,16 @@ func renameInboxPerUser(db *sql.DB, userID int64, newName string) error {
 		return err
 	}
 
+	// The moved messages keep their UIDs, so the new mailbox must continue INBOX's UID sequence
+	_, err = db.Exec(`
+		UPDATE mailboxes
+		SET uid_next = (SELECT uid_next FROM mailboxes WHERE id = ?)
+		WHERE id = ?
+	`, inboxID, newMailboxID)
+	if err != nil {
+		return err
+	}
+
 	// Move all messages from INBOX to new mailbox
 	_, err = db.Exec(`
 		UPDATE message_mailbox
